@@ -1206,7 +1206,17 @@ fn designator_to_asg(
     match get_ast_designator_expression(designator) {
         Some(synast::Expr::Literal(ref literal)) => {
             match literal.kind() {
-                synast::LiteralKind::IntNumber(int_num) => Some(int_num.value().unwrap() as u32),
+                synast::LiteralKind::IntNumber(int_num) => {
+                    // The width must fit in `u32`; a larger (or malformed) literal is not
+                    // silently truncated.
+                    match int_num.value().and_then(|value| u32::try_from(value).ok()) {
+                        Some(width) => Some(width),
+                        None => {
+                            context.insert_error(InvalidDesignatorError, literal);
+                            None
+                        }
+                    }
+                }
                 _ => {
                     // FIXME: This error should be done when validating syntax. Before the semantic analysis
                     context.insert_error(ConstIntegerError, literal);
